@@ -18,7 +18,7 @@ LEVEL_TEXT = ("Random grounding histories over a shared target are replayed on t
               "table reuse the property is about is observed (cross-call hits are counted) and every answer is compared with a fresh run.")
 LEVEL_NOTE = "Known engine crashes on the non-clean input class depend on grounding history; they are listed findings keyed by call site + input class."
 TECHNIQUE = "runtime history monitor: shared-target grounding histories vs fresh single-query groundings + table-hit counters"
-BUDGET = {"quick": 600, "thorough": 10000}
+BUDGET = {"quick": 600, "thorough": 6000}
 TIME_BUDGET = {"quick": 220, "thorough": 3300}
 CASE_TIMEOUT = 60
 WATCHDOG_FRACTION = 0.04
